@@ -64,6 +64,19 @@ func loadWitnesses() ([]Witness, error) {
 		}
 		ws = append(ws, w)
 	}
+	// behaviour-preserving refactors written by independent sub-agents
+	// (witness/benign/<prop>-bN.diff): the property's check must stay silent
+	bens, _ := filepath.Glob(filepath.Join(home, "witness", "benign", "*.diff"))
+	sort.Strings(bens)
+	for _, bp := range bens {
+		name := strings.TrimSuffix(filepath.Base(bp), ".diff")
+		prop := name
+		if i := strings.Index(name, "-"); i > 0 {
+			prop = name[:i]
+		}
+		ws = append(ws, Witness{ID: "benign/" + name, Kind: "benign", Props: []string{prop},
+			Patch: filepath.Join("witness", "benign", filepath.Base(bp)), Note: "independent behaviour-preserving refactor aimed at " + prop})
+	}
 	return ws, nil
 }
 
